@@ -971,7 +971,9 @@ func (p *Parser) parseForEach() ast.Expression {
 // parseFunctionDefinition parses the definition of a function.
 func (p *Parser) parseFunctionDefinition() ast.Expression {
 
-	// We're inside a function
+	// We're inside a function - which may itself be defined inside
+	// another, where we'll be again when this one is complete.
+	outer := p.function
 	p.function = true
 
 	// skip the `function` keyword, and expect the name
@@ -1005,8 +1007,8 @@ func (p *Parser) parseFunctionDefinition() ast.Expression {
 	// closing "}".
 	lit.Body = p.parseBlockStatement()
 
-	// We're no longer inside a function
-	p.function = false
+	// We're no longer inside this function
+	p.function = outer
 
 	return lit
 }
